@@ -365,11 +365,14 @@ func main() {
 		c := &caseRec{Kind: e.kind, Rule: e.rule, RuleName: idlmut.RuleNames[e.rule], Strict: e.strict, What: "corpus: " + e.name,
 			Position: e.position, Site: e.site, Depth: e.depth, EditedFile: e.edited, Base: baseRef{Gen: "corpus", Index: -1},
 			Files: e.files, Main: e.main, baseIdx: -1, stream: "corpus", patch: "[]"}
+		if e.kind == 0 {
+			c.RuleName = ""
+		}
 		root := newRoot()
 		if err := writeTree(root, e.files); err != nil {
 			fatal(err)
 		}
-		if e.kind == 1 {
+		if e.kind == 1 || e.kind == 0 {
 			p, perr := parseTree(root, e.main)
 			if perr != nil {
 				fmt.Fprintf(os.Stderr, "c04: corpus entry %q does not parse: %v\n", e.name, perr)
